@@ -3,6 +3,7 @@ package props
 import (
 	"fmt"
 	"strings"
+	"sync/atomic"
 	"time"
 
 	"github.com/grailbio/bigslice"
@@ -88,6 +89,9 @@ func runC02case(t *vf.T, c c02case) {
 	sig := "program=" + c.Program
 	if len(c.Kills) > 0 {
 		sig += fmt.Sprintf(" kill=%s/%s", c.Kills[0].Method, c.Kills[0].When)
+		if c.Kills[0].What == "kill-target-hold" {
+			sig += "/reply-held"
+		}
 	}
 	switch {
 	case out.TimedOut:
@@ -111,6 +115,13 @@ func runC02case(t *vf.T, c c02case) {
 			t.Violate(sig+" error-without-loss", fmt.Sprintf("no machine was killed (the kill point was never reached) but the run failed: %v", e))
 			return
 		}
+		if len(c.Kills) == 1 && kills == 1 && ls.IP != nil && atomic.LoadInt64(&ls.IP.held) == 1 {
+			// The executor had recorded the loss of the machine before the reply of the completed
+			// task was delivered; nothing else failed and replacements can be started: the
+			// lost output must be recomputed, and a give-up is not an acceptable outcome.
+			t.Violate(sig+" error-after-recorded-single-loss", fmt.Sprintf("one machine was lost and the executor had recorded the loss before the completed task's reply arrived; replacements were available, but the run failed: %.400s | library log: %s", e.Error(), logTail(12)))
+			return
+		}
 		if len(c.Kills) == 1 && !isGiveUp(e) && out.RunErr != nil {
 			// replacements can be started and losses have stopped: only the documented give-up is acceptable
 			t.Violate(sig+" unexpected-error-after-single-loss", fmt.Sprintf("one machine was lost, replacements were available, but Run failed with an error that is not the documented give-up: %.400s", e.Error()))
@@ -125,6 +136,9 @@ func runC02case(t *vf.T, c c02case) {
 		if kills > 0 {
 			t.Count("recoveries", 1)
 		}
+	}
+	if ls.IP != nil {
+		t.Count("replies_delivered_after_their_machine_was_seen_stopped", atomic.LoadInt64(&ls.IP.held))
 	}
 	t.Count("kill_actions_fired", int64(fired))
 	t.Count("machines_killed", int64(kills))
@@ -175,6 +189,14 @@ func runC02(r *vf.Runner) {
 					run(c02case{Program: p, Kills: []ipAction{{Method: m, Ordinal: k, When: when, What: "kill-target"}}})
 				}
 			}
+		}
+		// the reply of a successful Worker.Run is in flight while its machine dies and is seen to be
+		// stopped: the driver learns of the completion only after the loss
+		for k := 0; k < bounds["Worker.Run"]; k++ {
+			if r.Quick() && k%3 != 0 {
+				continue
+			}
+			run(c02case{Program: p, Kills: []ipAction{{Method: "Worker.Run", Ordinal: k, When: "after", What: "kill-target-hold"}}})
 		}
 		// kill another machine than the one addressed
 		for k := 0; k < 6; k++ {
